@@ -27,6 +27,29 @@ private def sample : Params :=
     hgcd := 75, hgcdAppr := 50, mod11 := 6, mod12 := 8, mod13 := 19, getStrDc := 13, getStrPrecompute := 22,
     setStrDc := 890, setStrPrecompute := 2093, divremHenselQr1 := 996, rshDivremHenselQr1 := 5 }
 
+
+private theorem mulMin_le (c : Cfg) (a : MulAlg) : mulMin Gen.minSizes c a ≤ sizeBound := by
+  cases c with | mk k r => cases k <;> cases r <;> cases a <;> decide
+private theorem sqrMin_le (c : Cfg) (a : SqrAlg) : sqrMin Gen.minSizes c a ≤ sizeBound := by
+  cases c with | mk k r => cases k <;> cases r <;> cases a <;> decide
+
+/-- For every shipped table, every build configuration and EVERY operand size n >= 1 (not only the sizes below
+    `sizeBound` that `Valid` enumerates): the `if` chains of mpn_mul_n and mpn_sqr (mul_n.c:289-388, mirrored by
+    `mulSel` / `sqrSel`) select an algorithm whose stated minimum size (MPN_*_MINSIZE of gmp-impl.h, regenerated) is at most n. -/
+theorem shipped_dispatch_respects_minima :
+    ∀ p ∈ Gen.shippedParams, ∀ c : Cfg, ∀ n, 1 ≤ n →
+      mulMin Gen.minSizes c (mulSel p n) ≤ n ∧ sqrMin Gen.minSizes c (sqrSel p n) ≤ n := by
+  intro p hp c n hn
+  have hc : c ∈ allCfgs := by cases c with | mk k r => cases k <;> cases r <;> decide
+  obtain ⟨_, h1, h2, _⟩ := all_shipped_params_valid p hp c hc
+  by_cases hlt : n < sizeBound
+  · exact ⟨h1 n hlt hn, h2 n hlt hn⟩
+  · have hge : sizeBound ≤ n := Nat.le_of_not_lt hlt
+    exact ⟨Nat.le_trans (mulMin_le c _) hge, Nat.le_trans (sqrMin_le c _) hge⟩
+
+-- non-vacuity: with the table of the pinned build, n = 17 goes to Toom-3 exactly when the threshold allows it
+example : mulSel sample 104 = .kara ∧ mulSel sample 105 = .toom3 ∧ sqrSel sample 26 = .kara ∧ sqrSel sample 25 = .sqrBasecase := by decide
+
 -- non-vacuity: `Valid` accepts a real table …
 example : Valid Gen.minSizes sample := by decide +kernel
 -- … and rejects tables that break a stated requirement:
